@@ -280,7 +280,7 @@ def check(ctx):
                'an existing node is modified only when its owner session '
                "is the client's")
     tests = [n for n in graph.nodes if n.kind == 'test' and
-             'owner_session_id' in N.txt(n.ast)]
+             'owner_session_id' in K.test_text(sc, n)]
     ctx.require(tests, 'owner-session test in _safe_create')
     for test in tests:
         for edge in test.succ:
